@@ -426,6 +426,25 @@ func run(c Case) ([]vk.Violation, vk.Info) {
 	if !sameStrings(dr, wd) {
 		bad("filter_dropped", "Filter dropped %v, model %v", dr, wd)
 	}
+	// What a call returned belongs to the caller: later Filter calls (on this
+	// and on other sets, dropping other things) must not change it.
+	_, droppedOther := so.Filter(f)
+	inverse := func(kv attribute.KeyValue) bool { return !f(kv) }
+	_, droppedInverse := s.Filter(inverse)
+	_, _ = so.Filter(inverse)
+	dr = renderSlice(dropped)
+	sort.Strings(dr)
+	if !sameStrings(dr, wd) {
+		bad("filter_dropped_changed_later", "the dropped list returned by Filter changed when Filter was called again: now %v, model %v", dr, wd)
+	}
+	di := renderSlice(droppedInverse)
+	sort.Strings(di)
+	wk := append([]string{}, wantKept...)
+	sort.Strings(wk)
+	if !sameStrings(di, wk) {
+		bad("filter_dropped", "Filter with the inverse predicate dropped %v (read after a further Filter call), model %v", di, wk)
+	}
+	_ = droppedOther
 	// scribble over what Filter returned: the original must not notice.
 	for i := range dropped {
 		dropped[i] = attribute.String("scribble", "x")
